@@ -647,8 +647,13 @@ func ruleR07_3(w *World, r *Report) {
 		}
 		for _, b := range fn.Blocks {
 			for _, in := range b.Instrs {
-				if bo, ok := in.(*ssa.BinOp); ok && strings.HasSuffix(canonName(bo.X), ".CUID") && strings.HasSuffix(canonName(bo.Y), ".CUID") {
-					clientSide = true
+				if bo, ok := in.(*ssa.BinOp); ok && (bo.Op == token.EQL || bo.Op == token.NEQ) {
+					x, y := canonName(bo.X), canonName(bo.Y)
+					isCUID := func(n string) bool { return strings.HasSuffix(n, ".CUID") || strings.HasSuffix(n, ".GetCUID()") }
+					// the origin of a received operation against the replica's own client id
+					if isCUID(x) && isCUID(y) && (strings.Contains(x, "opID") != strings.Contains(y, "opID") || strings.Contains(x, "ctx.Client") != strings.Contains(y, "ctx.Client")) {
+						clientSide = true
+					}
 				}
 			}
 		}
